@@ -1557,7 +1557,7 @@ impl CanonicalizeContext {
 			if following_siblings.is_empty() {
 				return None;
 			}
-			if ELEMENTS_WITH_FIXED_NUMBER_OF_CHILDREN.contains(name(&get_parent(leaf))) {
+			if ELEMENTS_WITH_FIXED_NUMBER_OF_CHILDREN.contains(name(&get_parent(leaf))) || name(&get_parent(leaf)) == "mmultiscripts" {
 				return None;	// the sibling is a different argument (e.g., script) -- merging would leave the parent a child short
 			}
 
@@ -1595,7 +1595,7 @@ impl CanonicalizeContext {
 			if following_siblings.is_empty() {
 				return None;
 			}
-			if ELEMENTS_WITH_FIXED_NUMBER_OF_CHILDREN.contains(name(&get_parent(leaf))) {
+			if ELEMENTS_WITH_FIXED_NUMBER_OF_CHILDREN.contains(name(&get_parent(leaf))) || name(&get_parent(leaf)) == "mmultiscripts" {
 				return None;	// the sibling is a different argument (e.g., denominator) -- merging would leave the parent a child short
 			}
 
